@@ -160,13 +160,30 @@ def dict_events(args):
             events.append(ev("dfs_max", rd=pl, root=root, m=m, cnt=len(ts_)))
             for t in ts_[:limit]:
                 events.append(ev("tree", rd=pl, root=root, tree=tree_json(t), m=m, finder="proof_tree_generator_dfs"))
-        # breadth-first generator
+        # breadth-first generator (it builds sibling subtrees independently and filters the inconsistent combinations out,
+        # so the next tree may be exponentially far away: a time budget bounds the enumeration, what was yielded is judged)
+        import signal
+
+        class _Budget(Exception):
+            pass
+
+        def _stop(signum, frame):
+            raise _Budget()
+
         n = 0
-        for t in ts.proof_tree_generator_bfs(d, root):
-            events.append(ev("tree", rd=pl, root=root, tree=tree_json(t), finder="proof_tree_generator_bfs"))
-            n += 1
-            if n >= limit:
-                break
+        old_handler = signal.signal(signal.SIGALRM, _stop)
+        signal.setitimer(signal.ITIMER_REAL, 2.0)
+        try:
+            for t in ts.proof_tree_generator_bfs(d, root):
+                events.append(ev("tree", rd=pl, root=root, tree=tree_json(t), finder="proof_tree_generator_bfs"))
+                n += 1
+                if n >= limit:
+                    break
+        except _Budget:
+            pass
+        finally:
+            signal.setitimer(signal.ITIMER_REAL, 0)
+            signal.signal(signal.SIGALRM, old_handler)
         # smallest: the binary search of the rule database on this pruned dictionary
         db = RuleDB()
         db.link_searcher(StubSearcher(root, False))
